@@ -58,6 +58,8 @@ def lb_config(balancers=('heap', 'aperture')):
       'open_fail': st.one_of(st.just([False]), st.just([False]), st.lists(st.sampled_from([False, False, False, True]), min_size=1, max_size=5)),
       'sync_fail': st.booleans(),
       'aperture': aperture,
+      # the provider names one of the members' additional endpoints (zk://...#name style) or uses the service endpoint
+      'endpoint_name': st.sampled_from([None, None, 'aux']),
   })
 
 
